@@ -85,6 +85,17 @@ def isOk : Outcome α → Bool
   | .ok _ _ => true
   | _ => false
 
+/-- the outcome's class (what the correspondence check compares first) -/
+inductive Cls where
+  | ok | err | fail | crash
+  deriving DecidableEq, Repr
+
+def cls : Outcome α → Cls
+  | .ok _ _ => .ok
+  | .err => .err
+  | .fail => .fail
+  | .crash _ => .crash
+
 /-- `Result::map` on the parsed value -/
 def map (f : α → β) : Outcome α → Outcome β
   | .ok v r => .ok (f v) r
